@@ -35,7 +35,7 @@ P = {}
 P["C01"] = {
     "common": {"validate": 6, "ignore_kinds": ["alloc", "unwind"], "runs": [
         {"pattern": "verifHarness_C0102_", "label_filter": "C01:"},
-        {"pattern": "verifHarness_C01_e2e", "label_filter": "C01:"}]},
+        {"pattern": "verifHarness_C01_(e2e|sequence)", "label_filter": "C01:"}]},
     "thorough": {"validate": 24},
     "bounds": CAT + "; codec level: one record per run (write, then read back into a zeroed target); end to end (C01_e2e): NewEncoderFor -> 1..3 (thorough 1..4) Encode/Flush calls in every order -> final Flush -> ReadFile, compression in {null, deflate, snappy}, block size in {0, 4, 7, 100} bytes, records {int64, 1-byte string}",
     "outside": "deeper nesting, longer collections and strings; time.Time / null.Time fields (text form decided by Time.Format, see C18); real deflate/snappy bytes; allocation size and loop-bound findings raised while reading back are C06's subject",
